@@ -232,9 +232,9 @@ impl<T: AsRef<[u8]> + AsMut<[u8]>> Packet<T> {
 
     pub fn set_opcode(&mut self, val: Opcode) {
         let field = &mut self.buffer.as_mut()[field::FLAGS];
-        let mask = 0x3800;
+        let mask = 0x7800;
         let val: u8 = val.into();
-        let val = (val as u16) << 11;
+        let val = ((val as u16) << 11) & mask;
         let old = NetworkEndian::read_u16(field);
         NetworkEndian::write_u16(field, (old & !mask) | val);
     }
@@ -418,6 +418,9 @@ impl<'a> Repr<'a> {
         T: AsRef<[u8]> + AsMut<[u8]> + ?Sized,
     {
         packet.set_transaction_id(self.transaction_id);
+        // Make no assumptions about the original state of the buffer: clear the whole flags
+        // word (reserved bit and response code included) before setting the individual fields.
+        NetworkEndian::write_u16(&mut packet.buffer.as_mut()[field::FLAGS], 0);
         packet.set_flags(self.flags);
         packet.set_opcode(self.opcode);
         packet.set_question_count(1);
